@@ -145,6 +145,7 @@ inductive AStmt where
   | raiseUnlessPolicy (k : AStmt)       -- if not policy_method: raise ValueError(…)
   | callPolicy (k : AStmt)              -- policy_method(self, sink, **policy_args)
   | ifFlag (thn : AStmt) (k : AStmt)    -- if do_start_stop_run: thn
+  | ifNotRegistered (thn : AStmt) (k : AStmt)   -- if not any(s is sink for s in self._sinks): thn
   | appendSink (k : AStmt)              -- self._sinks.append(sink)
   | ifInRun (thn : AStmt) (k : AStmt)   -- if self._in_run: thn
   | startSink (k : AStmt)               -- sink.startTestRun()
@@ -208,6 +209,10 @@ def aInterp (tbl : List (String × List PStmt)) (o : Op) : AStmt → ASt → ASt
   | .ifFlag thn k, a =>
     let a' := if flagOf o then aInterp tbl o thn a else a
     if a'.err.isSome then a' else aInterp tbl o k a'
+  | .ifNotRegistered thn k, a =>
+    -- sink numbers are object identities: `any(s is sink …)` is membership of the number
+    let a' := if !a.s.sinks.contains (sinkOf o) then aInterp tbl o thn a else a
+    if a'.err.isSome then a' else aInterp tbl o k a'
   | .appendSink k, a => aInterp tbl o k { a with s := { a.s with sinks := a.s.sinks ++ [sinkOf o] } }
   | .ifInRun thn k, a =>
     let a' := if a.s.inRun then aInterp tbl o thn a else a
@@ -215,8 +220,38 @@ def aInterp (tbl : List (String × List PStmt)) (o : Op) : AStmt → ASt → ASt
   | .startSink k, a => aInterp tbl o k { a with started := some (sinkOf o) }
 
 def refAddRule : AStmt :=
-  .lookupPolicy <| .raiseUnlessPolicy <| .callPolicy <| .ifFlag (.appendSink (.ifInRun (.startSink .done) .done)) .done
+  .lookupPolicy <| .raiseUnlessPolicy <| .callPolicy <|
+    .ifFlag (.ifNotRegistered (.appendSink (.ifInRun (.startSink .done) .done)) .done) .done
 def refPolicies : List (String × List PStmt) :=
   [("route_code_prefix", [.raiseIfSlash, .setPrefix]), ("test_id", [.setId])]
+
+/-! ### `__init__` -/
+inductive IStmt where
+  | setFallback                         -- self.fallback = fallback
+  | noPrefixes | noIds | noSinks        -- self._route_code_prefixes = {}; self._test_ids = {}; self._sinks = []
+  | registerFallbackIfFlagAndPresent    -- if do_start_stop_run and fallback is not None: self._sinks.append(fallback)
+  | registerFallbackIfFlagAndTruthy     -- if do_start_stop_run and fallback: … (depends on the sink object's truth value)
+  | notInRun                            -- self._in_run = False
+  | other
+deriving DecidableEq, Repr
+
+/-- the router after `__init__(fallback, do_start_stop_run)`; every attribute must have been assigned; a registration that
+asks for the truth value of the sink object is not a function of the configuration: `none` -/
+def iInterp (hasFallback flag : Bool) : List IStmt → (Option (Option Nat) × Option (List (Str × (Nat × Bool))) ×
+    Option (List (Option Nat × Nat)) × Option (List Nat) × Option Bool) → Option State
+  | [], (some fb, some ps, some is, some ss, some r) =>
+    some { fallback := fb, prefixes := ps, ids := is, sinks := ss, inRun := r, scripts := [] }
+  | [], _ => none
+  | .setFallback :: r, (_, ps, is, ss, ir) => iInterp hasFallback flag r (some (if hasFallback then some 0 else none), ps, is, ss, ir)
+  | .noPrefixes :: r, (fb, _, is, ss, ir) => iInterp hasFallback flag r (fb, some [], is, ss, ir)
+  | .noIds :: r, (fb, ps, _, ss, ir) => iInterp hasFallback flag r (fb, ps, some [], ss, ir)
+  | .noSinks :: r, (fb, ps, is, _, ir) => iInterp hasFallback flag r (fb, ps, is, some [], ir)
+  | .registerFallbackIfFlagAndPresent :: r, (fb, ps, is, some ss, ir) =>
+    iInterp hasFallback flag r (fb, ps, is, some (if flag && hasFallback then ss ++ [0] else ss), ir)
+  | .notInRun :: r, (fb, ps, is, ss, _) => iInterp hasFallback flag r (fb, ps, is, ss, some false)
+  | _ :: _, _ => none
+
+def refInit : List IStmt :=
+  [.setFallback, .noPrefixes, .noIds, .noSinks, .registerFallbackIfFlagAndPresent, .notInRun]
 
 end TTV.RouterSrc
